@@ -39,6 +39,8 @@ class BehavioralTranslatorL3( BehavioralTranslatorL2 ):
 
   def dispatch_freevar_datatype( s, dtype ):
     if isinstance( dtype, rdt.Struct ):
-      return s.rtlir_tr_struct_dtype( dtype )
+      # go through the data type translation, which also declares the struct
+      # type: no port or wire of the component may have it
+      return s.rtlir_data_type_translation( None, dtype )
     else:
       return super().dispatch_freevar_datatype( dtype )
